@@ -384,6 +384,7 @@ package codec
 //@   ensures [C04,C06] decIntK(src, i0, tag, require, 1, d0) == 0 ==> (err == nil && *data == decIntV(src, i0, tag, d0) && b.buf.i == decIntP(src, i0, tag, d0))
 //@   ensures [C04,C06] decIntK(src, i0, tag, require, 1, d0) == 1 ==> (err == nil && *data == old(*data))
 //@   ensures [C04] (decIntK(src, i0, tag, require, 1, d0) == 1 && seekK(src, i0, tag, d0) == 1 && seekCanon(src, i0, tag, d0)) ==> b.buf.i == seekP(src, i0, tag, d0)
+//@   ensures [C04] (decIntK(src, i0, tag, require, 1, d0) == 1 && seekK(src, i0, tag, d0) == 2) ==> b.buf.i == seekP(src, i0, tag, d0)
 //@   ensures [C06] decIntK(src, i0, tag, require, 1, d0) == 2 ==> err != nil
 //@   ensures [C04,C05,C06] b.buf.i >= i0
 //@   decreases len(b.buf.src) - b.buf.i, 1
@@ -403,6 +404,7 @@ package codec
 //@   ensures [C04,C06] decIntK(src, i0, tag, require, 2, d0) == 0 ==> (err == nil && *data == decIntV(src, i0, tag, d0) && b.buf.i == decIntP(src, i0, tag, d0))
 //@   ensures [C04,C06] decIntK(src, i0, tag, require, 2, d0) == 1 ==> (err == nil && *data == old(*data))
 //@   ensures [C04] (decIntK(src, i0, tag, require, 2, d0) == 1 && seekK(src, i0, tag, d0) == 1 && seekCanon(src, i0, tag, d0)) ==> b.buf.i == seekP(src, i0, tag, d0)
+//@   ensures [C04] (decIntK(src, i0, tag, require, 2, d0) == 1 && seekK(src, i0, tag, d0) == 2) ==> b.buf.i == seekP(src, i0, tag, d0)
 //@   ensures [C06] decIntK(src, i0, tag, require, 2, d0) == 2 ==> err != nil
 //@   ensures [C04,C05,C06] b.buf.i >= i0
 //@   decreases len(b.buf.src) - b.buf.i, 1
@@ -422,6 +424,7 @@ package codec
 //@   ensures [C04,C06] decIntK(src, i0, tag, require, 4, d0) == 0 ==> (err == nil && *data == decIntV(src, i0, tag, d0) && b.buf.i == decIntP(src, i0, tag, d0))
 //@   ensures [C04,C06] decIntK(src, i0, tag, require, 4, d0) == 1 ==> (err == nil && *data == old(*data))
 //@   ensures [C04] (decIntK(src, i0, tag, require, 4, d0) == 1 && seekK(src, i0, tag, d0) == 1 && seekCanon(src, i0, tag, d0)) ==> b.buf.i == seekP(src, i0, tag, d0)
+//@   ensures [C04] (decIntK(src, i0, tag, require, 4, d0) == 1 && seekK(src, i0, tag, d0) == 2) ==> b.buf.i == seekP(src, i0, tag, d0)
 //@   ensures [C06] decIntK(src, i0, tag, require, 4, d0) == 2 ==> err != nil
 //@   ensures [C04,C05,C06] b.buf.i >= i0
 //@   decreases len(b.buf.src) - b.buf.i, 1
@@ -441,6 +444,7 @@ package codec
 //@   ensures [C04,C06] decIntK(src, i0, tag, require, 8, d0) == 0 ==> (err == nil && *data == decIntV(src, i0, tag, d0) && b.buf.i == decIntP(src, i0, tag, d0))
 //@   ensures [C04,C06] decIntK(src, i0, tag, require, 8, d0) == 1 ==> (err == nil && *data == old(*data))
 //@   ensures [C04] (decIntK(src, i0, tag, require, 8, d0) == 1 && seekK(src, i0, tag, d0) == 1 && seekCanon(src, i0, tag, d0)) ==> b.buf.i == seekP(src, i0, tag, d0)
+//@   ensures [C04] (decIntK(src, i0, tag, require, 8, d0) == 1 && seekK(src, i0, tag, d0) == 2) ==> b.buf.i == seekP(src, i0, tag, d0)
 //@   ensures [C06] decIntK(src, i0, tag, require, 8, d0) == 2 ==> err != nil
 //@   ensures [C04,C05,C06] b.buf.i >= i0
 //@   decreases len(b.buf.src) - b.buf.i, 1
@@ -459,6 +463,8 @@ package codec
 //@   ensures [C02] (atHead(src, i0, tag) && decIntK(src, i0, tag, require, 2, d0) == 0) ==> (err == nil && *data == u8(decIntV(src, i0, tag, d0)) && b.buf.i == decIntP(src, i0, tag, d0))
 //@   ensures [C04,C06] decIntK(src, i0, tag, require, 2, d0) == 0 ==> (err == nil && *data == u8(decIntV(src, i0, tag, d0)) && b.buf.i == decIntP(src, i0, tag, d0))
 //@   ensures [C04,C06] decIntK(src, i0, tag, require, 2, d0) == 1 ==> (err == nil && *data == old(*data))
+//@   ensures [C04] (decIntK(src, i0, tag, require, 2, d0) == 1 && seekK(src, i0, tag, d0) == 1 && seekCanon(src, i0, tag, d0)) ==> b.buf.i == seekP(src, i0, tag, d0)
+//@   ensures [C04] (decIntK(src, i0, tag, require, 2, d0) == 1 && seekK(src, i0, tag, d0) == 2) ==> b.buf.i == seekP(src, i0, tag, d0)
 //@   ensures [C06] decIntK(src, i0, tag, require, 2, d0) == 2 ==> err != nil
 //@   ensures [C04,C05,C06] b.buf.i >= i0
 //@   safety [C05]
@@ -476,6 +482,8 @@ package codec
 //@   ensures [C02] (atHead(src, i0, tag) && decIntK(src, i0, tag, require, 4, d0) == 0) ==> (err == nil && *data == u16(decIntV(src, i0, tag, d0)) && b.buf.i == decIntP(src, i0, tag, d0))
 //@   ensures [C04,C06] decIntK(src, i0, tag, require, 4, d0) == 0 ==> (err == nil && *data == u16(decIntV(src, i0, tag, d0)) && b.buf.i == decIntP(src, i0, tag, d0))
 //@   ensures [C04,C06] decIntK(src, i0, tag, require, 4, d0) == 1 ==> (err == nil && *data == old(*data))
+//@   ensures [C04] (decIntK(src, i0, tag, require, 4, d0) == 1 && seekK(src, i0, tag, d0) == 1 && seekCanon(src, i0, tag, d0)) ==> b.buf.i == seekP(src, i0, tag, d0)
+//@   ensures [C04] (decIntK(src, i0, tag, require, 4, d0) == 1 && seekK(src, i0, tag, d0) == 2) ==> b.buf.i == seekP(src, i0, tag, d0)
 //@   ensures [C06] decIntK(src, i0, tag, require, 4, d0) == 2 ==> err != nil
 //@   ensures [C04,C05,C06] b.buf.i >= i0
 //@   safety [C05]
@@ -493,6 +501,8 @@ package codec
 //@   ensures [C02] (atHead(src, i0, tag) && decIntK(src, i0, tag, require, 8, d0) == 0) ==> (err == nil && *data == u32(decIntV(src, i0, tag, d0)) && b.buf.i == decIntP(src, i0, tag, d0))
 //@   ensures [C04,C06] decIntK(src, i0, tag, require, 8, d0) == 0 ==> (err == nil && *data == u32(decIntV(src, i0, tag, d0)) && b.buf.i == decIntP(src, i0, tag, d0))
 //@   ensures [C04,C06] decIntK(src, i0, tag, require, 8, d0) == 1 ==> (err == nil && *data == old(*data))
+//@   ensures [C04] (decIntK(src, i0, tag, require, 8, d0) == 1 && seekK(src, i0, tag, d0) == 1 && seekCanon(src, i0, tag, d0)) ==> b.buf.i == seekP(src, i0, tag, d0)
+//@   ensures [C04] (decIntK(src, i0, tag, require, 8, d0) == 1 && seekK(src, i0, tag, d0) == 2) ==> b.buf.i == seekP(src, i0, tag, d0)
 //@   ensures [C06] decIntK(src, i0, tag, require, 8, d0) == 2 ==> err != nil
 //@   ensures [C04,C05,C06] b.buf.i >= i0
 //@   safety [C05]
@@ -510,6 +520,8 @@ package codec
 //@   ensures [C02] (atHead(src, i0, tag) && decIntK(src, i0, tag, require, 1, d0) == 0) ==> (err == nil && *data == (decIntV(src, i0, tag, d0) != 0) && b.buf.i == decIntP(src, i0, tag, d0))
 //@   ensures [C04,C06] decIntK(src, i0, tag, require, 1, d0) == 0 ==> (err == nil && *data == (decIntV(src, i0, tag, d0) != 0) && b.buf.i == decIntP(src, i0, tag, d0))
 //@   ensures [C04,C06] decIntK(src, i0, tag, require, 1, d0) == 1 ==> (err == nil && *data == old(*data))
+//@   ensures [C04] (decIntK(src, i0, tag, require, 1, d0) == 1 && seekK(src, i0, tag, d0) == 1 && seekCanon(src, i0, tag, d0)) ==> b.buf.i == seekP(src, i0, tag, d0)
+//@   ensures [C04] (decIntK(src, i0, tag, require, 1, d0) == 1 && seekK(src, i0, tag, d0) == 2) ==> b.buf.i == seekP(src, i0, tag, d0)
 //@   ensures [C06] decIntK(src, i0, tag, require, 1, d0) == 2 ==> err != nil
 //@   ensures [C04,C05,C06] b.buf.i >= i0
 //@   safety [C05]
@@ -527,6 +539,8 @@ package codec
 //@   ensures [C02] (atHead(src, i0, tag) && decF32K(src, i0, tag, require, d0) == 0) ==> (err == nil && *data == decF32V(src, i0, tag, d0) && b.buf.i == decIntP(src, i0, tag, d0))
 //@   ensures [C04,C06] decF32K(src, i0, tag, require, d0) == 0 ==> (err == nil && *data == decF32V(src, i0, tag, d0) && b.buf.i == decIntP(src, i0, tag, d0))
 //@   ensures [C04,C06] decF32K(src, i0, tag, require, d0) == 1 ==> (err == nil && *data == old(*data))
+//@   ensures [C04] (decF32K(src, i0, tag, require, d0) == 1 && seekK(src, i0, tag, d0) == 1 && seekCanon(src, i0, tag, d0)) ==> b.buf.i == seekP(src, i0, tag, d0)
+//@   ensures [C04] (decF32K(src, i0, tag, require, d0) == 1 && seekK(src, i0, tag, d0) == 2) ==> b.buf.i == seekP(src, i0, tag, d0)
 //@   ensures [C06] decF32K(src, i0, tag, require, d0) == 2 ==> err != nil
 //@   ensures [C04,C05,C06] b.buf.i >= i0
 //@   safety [C05]
@@ -544,6 +558,8 @@ package codec
 //@   ensures [C02] (atHead(src, i0, tag) && decF64K(src, i0, tag, require, d0) == 0) ==> (err == nil && *data == decF64V(src, i0, tag, d0) && b.buf.i == decIntP(src, i0, tag, d0))
 //@   ensures [C04,C06] decF64K(src, i0, tag, require, d0) == 0 ==> (err == nil && *data == decF64V(src, i0, tag, d0) && b.buf.i == decIntP(src, i0, tag, d0))
 //@   ensures [C04,C06] decF64K(src, i0, tag, require, d0) == 1 ==> (err == nil && *data == old(*data))
+//@   ensures [C04] (decF64K(src, i0, tag, require, d0) == 1 && seekK(src, i0, tag, d0) == 1 && seekCanon(src, i0, tag, d0)) ==> b.buf.i == seekP(src, i0, tag, d0)
+//@   ensures [C04] (decF64K(src, i0, tag, require, d0) == 1 && seekK(src, i0, tag, d0) == 2) ==> b.buf.i == seekP(src, i0, tag, d0)
 //@   ensures [C06] decF64K(src, i0, tag, require, d0) == 2 ==> err != nil
 //@   ensures [C04,C05,C06] b.buf.i >= i0
 //@   safety [C05]
@@ -561,6 +577,8 @@ package codec
 //@   ensures [C02] (atHead(src, i0, tag) && decStrK(src, i0, tag, require, d0) == 0) ==> (err == nil && *data == decStrV(src, i0, tag, d0) && b.buf.i == decStrP(src, i0, tag, d0))
 //@   ensures [C04,C06] decStrK(src, i0, tag, require, d0) == 0 ==> (err == nil && *data == decStrV(src, i0, tag, d0) && b.buf.i == decStrP(src, i0, tag, d0))
 //@   ensures [C04,C06] decStrK(src, i0, tag, require, d0) == 1 ==> (err == nil && *data == old(*data))
+//@   ensures [C04] (decStrK(src, i0, tag, require, d0) == 1 && seekK(src, i0, tag, d0) == 1 && seekCanon(src, i0, tag, d0)) ==> b.buf.i == seekP(src, i0, tag, d0)
+//@   ensures [C04] (decStrK(src, i0, tag, require, d0) == 1 && seekK(src, i0, tag, d0) == 2) ==> b.buf.i == seekP(src, i0, tag, d0)
 //@   ensures [C06] decStrK(src, i0, tag, require, d0) == 2 ==> err != nil
 //@   ensures [C04,C05,C06] b.buf.i >= i0
 //@   safety [C05]
